@@ -5,6 +5,7 @@ import (
 	"encoding/json"
 	"fmt"
 	"os"
+	"strings"
 
 	"verif/engine/core"
 )
@@ -13,10 +14,12 @@ type CheckFunc func(c *core.Ctx) error
 
 var Registry = map[string]CheckFunc{}
 
-// Replay prints a recorded violation; the replay file holds the complete
-// input of the failing case (files, config, choices) so it can be re-run by
-// hand or by `mcx check <id>` (which re-explores the same case first, as cases
-// are ordered simplest-first).
+// Replay prints a recorded violation (the replay file holds the complete input
+// of the failing case: files, config, choices, schedule) and re-runs the check
+// of that property in replay mode: only a violation with the recorded key
+// counts, so the exit status says whether that very violation still reproduces
+// on the current tree (1 = reproduced, 0 = gone). The real evidence file is
+// not touched.
 func Replay(path string) int {
 	b, err := os.ReadFile(path)
 	if err != nil {
@@ -33,7 +36,17 @@ func Replay(path string) int {
 	if id, ok := v["property"].(string); ok {
 		if fn, ok := Registry[id]; ok {
 			os.Setenv("VERIF_REPLAY_KEY", fmt.Sprint(v["key"]))
-			c, err := core.NewCtx(id, "quick")
+			// the replayed run must not overwrite the real evidence
+			if os.Getenv("VERIF_EVIDENCE_DIR") == "" {
+				d, _ := os.MkdirTemp("", "mcx-replay-ev-")
+				defer os.RemoveAll(d)
+				os.Setenv("VERIF_EVIDENCE_DIR", d)
+			}
+			tier := "quick"
+			if strings.Contains(path, "thorough-") {
+				tier = "thorough"
+			}
+			c, err := core.NewCtx(id, tier)
 			if err != nil {
 				return 2
 			}
